@@ -220,6 +220,30 @@ def call_model(c, t, at, edge):
                 lo, hi = sget(i, "start"), sget(i, "end")
                 if lo[0] == "i" and hi[0] == "i":
                     ln = I(max(0, hi[1] - lo[2]), max(0, hi[2] - lo[1]))
+                    # b - a with the common part cancelled (v[i..i + n] has exactly n elements whatever i is)
+                    rng_t = args[1]
+                    while rng_t[0] in ("ref", "deref"):
+                        rng_t = rng_t[2] if rng_t[0] == "ref" else rng_t[1]
+                    if rng_t[0] == "agg" and isinstance(rng_t[2], str) and rng_t[2].startswith("std::ops::Range::") and len(rng_t[3]) == 2 and at is not None:
+                        ls, le = c.linear(rng_t[3][0], at), c.linear(rng_t[3][1], at)
+                        if ls and le:
+                            diff = dict(le[0])
+                            for x_, k_ in ls[0].items():
+                                diff[x_] = diff.get(x_, 0) - k_
+                            lo_d = hi_d = le[1] - ls[1]
+                            for x_, k_ in diff.items():
+                                if k_ == 0:
+                                    continue
+                                rg = c.atom_range_refined(x_, at, edge)
+                                if rg is None:
+                                    lo_d = hi_d = None
+                                    break
+                                lo_d += min(k_ * rg[0], k_ * rg[1])
+                                hi_d += max(k_ * rg[0], k_ * rg[1])
+                            if lo_d is not None:
+                                rel = meet(ln, I(max(0, lo_d), max(0, hi_d)))
+                                if rel[0] == "i":
+                                    ln = rel
                     if a[1][0] == "i":
                         ln = meet(ln, I(0, a[1][2]))
                     return R(V(ln if ln[0] == "i" else I(0, MAXLEN), a[2], None))
